@@ -292,6 +292,7 @@ RULES = [
     ("C07-R2", "aggregate -> primitive / divisor / sqrt table; formulas; aggregate set", r2),
     ("C07-R3", "the WHERE filter is applied before aggregation; one buffer row per accepted entry", r3),
     ("X-BUFFER", "buffering predicates (ordered or aggregate) and recursive expression predicates [shared]", lambda ctx: __import__("extra").buffering_predicates(ctx)),
+    ("C06-R2", "no early stop while rows are buffered for aggregation [shared with C06]", lambda ctx: __import__("c06").r2(ctx)),
 ]
 
 EXPLANATION = (
